@@ -19,7 +19,7 @@ import (
 
 const (
 	tmoLong   = 1500 * time.Millisecond // ConnectTimeout / ResubscribeTimeout: acks are prompt (<< this) or never
-	waitBound = 8 * time.Second        // liveness watchdog of a scenario step
+	waitBound = 8 * time.Second         // liveness watchdog of a scenario step
 )
 
 type body struct {
@@ -86,7 +86,9 @@ type scn struct {
 	conns    []*memConn
 	leaks    []string
 	curPlan  connPlan
-	envSlow  bool // a timeout expired although the peer of that attempt answers promptly: the machine was too slow
+	directs  map[string]string // extra clauses evaluated by a script on the implementation alone: clause -> "" (ok) | what failed
+	offGate  string            // the first OfflineCallback blocks until this gate opens
+	envSlow  bool              // a timeout expired although the peer of that attempt answers promptly: the machine was too slow
 	discSent bool
 
 	svc    *client.Service
@@ -343,6 +345,17 @@ func (s *scn) noteTimeout(r string) {
 	s.mu.Unlock()
 }
 
+func (s *scn) direct(clause, fail string) {
+	s.mu.Lock()
+	if s.directs == nil {
+		s.directs = map[string]string{}
+	}
+	if s.directs[clause] == "" {
+		s.directs[clause] = fail
+	}
+	s.mu.Unlock()
+}
+
 func (s *scn) setup() {
 	sv := client.NewService(s.qcap)
 	sv.MinReconnectDelay = 1 * time.Millisecond
@@ -353,7 +366,12 @@ func (s *scn) setup() {
 	sv.QueueTimeout = s.qtmo
 	sv.Logger = s.logger
 	sv.OnlineCallback = func(resumed bool) { s.ev("online %s", hx.B01(resumed)) }
-	sv.OfflineCallback = func() { s.ev("offline") }
+	sv.OfflineCallback = func() {
+		s.ev("offline")
+		if s.offGate != "" && s.count("offline") == 1 {
+			s.waitGate(s.offGate)
+		}
+	}
 	sv.ErrorCallback = func(error) { s.mu.Lock(); s.errCb++; s.mu.Unlock() }
 	cfg := client.NewConfig("mem://x")
 	cfg.Dialer = &recDialer{s}
